@@ -111,7 +111,7 @@ CHECKS = {
 # Properties whose check exists but is not yet claimed (must run clean on the
 # unchanged tree first). Keep this list current.
 UNCLAIMED = {
-    **{p: 'check built (props/%s.py) but not yet run clean on the unchanged tree in this session; not claimed until it is' % p.lower() for p in ['C08','C09','C10','C11']},
+    **{p: 'check built (props/%s.py) but not yet run clean on the unchanged tree in this session; not claimed until it is' % p.lower() for p in []},
 }
 
 NOT_YET = {}
